@@ -27,11 +27,11 @@ def run(repo: Repo, chk: Check):
     chk.rule("R02.c", "every site that decides inlining evaluates the same predicate (inline_functions AND called-exactly-once) or its negation", floor=8)
     chk.rule("R02.d", "both calling conventions have an emission site for every role (argument write/read, result write/read)", floor=8)
     chk.rule("R02.e", "the tail-call rewrite (jal -> j) and the suppression of the final 'j ra' hang on the same flag, set in the same block", floor=2)
-    r15e(Scanner(repo), chk, "R02.a")
-    r02b(repo, chk)
-    r02c(repo, chk)
-    rule_convention_roles(repo, chk, "R02.d")
-    r02e(repo, chk)
+    chk.guarded(lambda: r15e(Scanner(repo), chk, "R02.a"))
+    chk.guarded(r02b, repo, chk)
+    chk.guarded(r02c, repo, chk)
+    chk.guarded(rule_convention_roles, repo, chk, "R02.d")
+    chk.guarded(r02e, repo, chk)
 
 
 def _option_reads(repo, fields):
